@@ -6,10 +6,11 @@ ABSENT = 'b' * 64
 
 
 def _bulk(what, s0, s1, s2, r0, r1, r2, r3, nreq, in_max, chunk_max, view):
-    """obj0 loose, obj1 loose and packed, obj2 packed, a fourth key absent; request = up to 4 picks among them."""
+    """obj0 loose, obj1 loose and packed, obj2 packed compressed, a fourth key absent; request = up to 4 picks."""
     w = make_world(10**9)
     try:
-        w.set_pack(0, [('obj', 1, s1), ('obj', 2, s2)])
+        w.set_zlen(2, s2, s2 + 7)  # obj2 is stored compressed: its stored length differs from its size
+        w.set_pack(0, [('obj', 1, s1), ('zobj', 2, s2)])
         w.put_loose(0, s0)
         w.put_loose(1, s1)
         sizes = [s0, s1, s2]
